@@ -11,6 +11,7 @@
 #define CNL_IMPL_SCALED_INTEGER_OPERATORS_H
 
 #include "../narrow_cast.h"
+#include "../num_traits/scale.h"
 #include "../scaled/power.h"
 #include "definition.h"
 
@@ -34,7 +35,7 @@ namespace cnl {
         static constexpr int shiftage = RhsExponent - LhsExponent;
         using lhs_type = scaled_integer<LhsRep, power<LhsExponent, Radix>>;
         using rhs_type = scaled_integer<
-                decltype(std::declval<RhsRep>() << constant<shiftage>()),
+                decltype(_impl::scale<shiftage, Radix>(std::declval<RhsRep>())),
                 power<LhsExponent, Radix>>;
 
         [[nodiscard]] constexpr auto operator()(
@@ -56,7 +57,7 @@ namespace cnl {
             op_value<scaled_integer<RhsRep, power<RhsExponent, Radix>>>> {
         static constexpr int shiftage = LhsExponent - RhsExponent;
         using lhs_type = scaled_integer<
-                decltype(std::declval<LhsRep>() << constant<shiftage>()),
+                decltype(_impl::scale<shiftage, Radix>(std::declval<LhsRep>())),
                 power<RhsExponent, Radix>>;
         using rhs_type = scaled_integer<RhsRep, power<RhsExponent, Radix>>;
 
